@@ -119,6 +119,77 @@ def run(chk, tier):
     # ---- R4 / R6: transition table of complete_probe ---------------------------------------------------
     chk.rule('R4', 'complete_probe: non-Awaited slot ⇒ no write; Awaited ⇒ exactly the specified updates', floor=10)
     chk.rule('R6', 'complete_probe never panics, whatever slot the in-window sequence names', floor=1)
+    transitions(chk, prog)
+
+    # ---- R7: stale slots ---------------------------------------------------------------------------------
+    chk.rule('R7', 'a sequence not sent in the current round can never name an Awaited slot '
+                   '(in_round bounded by the next sequence, or the buffer is reset between rounds)', floor=1)
+    far = prog.find(r'TracerState::advance_round$')
+    chk.fn_seen(far['path'])
+    enga = Engine(prog, inline_depth=1)
+    st = St()
+    outs = enga.run(far, [enga.sym_ref(st, 'self'), ('sym', 'first_ttl')], st)
+    resets = 0
+    for o in outs:
+        w = [e for e in o.st.events if e[0] == 'write' and e[1] == TS and e[2] == 'buffer' and e[5] == 'buffer']
+        fresh = False
+        for e in w:
+            v = e[3]
+            if not contains(v, lambda x: isinstance(x, tuple) and x[0] in ('sym', 'rec') and 'buffer' in str(x[1])):
+                # value must be built from default (NotSent) entries
+                cl = [x for x in _subterms(v) if isinstance(x, tuple) and x[0] == 'closure']
+                if cl and cl[0][1] in prog.fns:
+                    st2 = St()
+                    eng3 = Engine(prog, inline_depth=3)
+                    r = eng3.run(prog.fns[cl[0][1]], [eng3.obj_ref(st2, cl[0]), ('sym', 'i')], st2)
+                    if r and all(x.kind == 'return' and vshow(x.value) == 'ProbeStatus::NotSent' for x in r):
+                        fresh = True
+        resets += 1 if (o.kind == 'return' and fresh) else 0
+    st = St()
+    eng2b = Engine(prog, inline_depth=2)
+    fir_ = prog.find(r'TracerState::in_round$')
+    io = eng2b.run(fir_, [eng2b.sym_ref(st, 'self'), ('sym', 'seq')], st)
+    bounded = any(re.search(r'Lt\(seq(\.0)?, self\.sequence(\.0)?\)|Gt\(self\.sequence(\.0)?, seq(\.0)?\)', vshow(a))
+                  for o in io for a, v, _ in o.st.decisions) or \
+        any(re.search(r'Lt\(seq(\.0)?, self\.sequence(\.0)?\)', vshow(o.value)) for o in io)
+    if bounded or (outs and resets == len(outs)):
+        chk.ok('R7', 'stale-slots', 'in_round bounded by self.sequence: %s; advance_round resets the whole buffer to NotSent on %d/%d traces' % (bounded, resets, len(outs)))
+    else:
+        chk.fail('R7', 'stale-slots', fn_loc(far),
+                 'neither does in_round bound the sequence by what was sent, nor does advance_round reset the buffer '
+                 '(reset on %d/%d traces): a response naming a not-yet-sent in-window sequence can complete a stale Awaited '
+                 'entry of an earlier round and corrupt target_found / max_received_ttl / received_time' % (resets, len(outs)),
+                 key='R7|stale-awaited-slot')
+
+    # ---- R5: the gate predicates ------------------------------------------------------------------------
+    chk.rule('R5v', 'validate == dest-addr ∧ ports(direction) ∧ (Dublin/IPv6 → magic), per configuration cell (72 cells)', floor=72 * 4)
+    from .validate_spec import check_validate
+    check_validate(chk, 'R5v', prog)
+    chk.rule('R5', 'check_trace_id and in_round are the specified predicates', floor=4)
+    eng2 = Engine(prog, inline_depth=2)
+    fct = prog.find(r'Strategy::check_trace_id$')
+    chk.fn_seen(fct['path'])
+    st = St()
+    outs = eng2.run(fct, [eng2.sym_ref(st, 'self'), ('sym', 'tid')], st)
+    A = r'Eq\(self\.config\.trace_identifier, tid\)|Eq\(tid, self\.config\.trace_identifier\)'
+    Z = r'Eq\(tid, 0\)|Eq\(0, tid\)'
+    _pred_table(chk, 'R5', 'check_trace_id', fct, outs,
+                [Atom('mine', A), Atom('zero', Z)], lambda a: bool(a['mine'] or a['zero']))
+    fir = prog.find(r'TracerState::in_round$')
+    chk.fn_seen(fir['path'])
+    bs = prog.const_val('trippy_core::strategy::state::BUFFER_SIZE')
+    st = St()
+    outs = eng2.run(fir, [eng2.sym_ref(st, 'self'), ('sym', 'seq')], st)
+    GE = r'Ge\(seq, self\.round_sequence\)|Le\(self\.round_sequence, seq\)|Ge\(seq\.0, self\.round_sequence\.0\)'
+    LT = r'Lt\(Sub\(seq\.0, self\.round_sequence\.0\), %d\)|Lt\(Sub\(seq, self\.round_sequence\), %d\)' % (bs, bs)
+    _pred_table(chk, 'R5', 'in_round', fir, outs, [Atom('ge', GE, r'Lt\(seq, self\.round_sequence\)'), Atom('window', LT)],
+                lambda a: bool(a['ge'] and a['window']))
+
+
+def transitions(chk, prog):
+    """R4/R6: the transition table of TracerState::complete_probe (also used by C06.R4)"""
+    fcp = prog.find(r'TracerState::complete_probe$')
+    chk.fn_seen(fcp['path'])
     eng = Engine(prog, inline_depth=2, opaque=[r'Probe::complete$'])
     st = St()
     outs = eng.run(fcp, [eng.sym_ref(st, 'self'), ('sym', 'resp')], st)
@@ -208,29 +279,16 @@ def run(chk, tier):
     if not panics:
         chk.ok('R6', 'no-panic', 'no trace of complete_probe panics')
 
-    # ---- R5: the gate predicates ------------------------------------------------------------------------
-    chk.rule('R5v', 'validate == dest-addr ∧ ports(direction) ∧ (Dublin/IPv6 → magic), per configuration cell (72 cells)', floor=72 * 4)
-    from .validate_spec import check_validate
-    check_validate(chk, 'R5v', prog)
-    chk.rule('R5', 'check_trace_id and in_round are the specified predicates', floor=4)
-    eng2 = Engine(prog, inline_depth=2)
-    fct = prog.find(r'Strategy::check_trace_id$')
-    chk.fn_seen(fct['path'])
-    st = St()
-    outs = eng2.run(fct, [eng2.sym_ref(st, 'self'), ('sym', 'tid')], st)
-    A = r'Eq\(self\.config\.trace_identifier, tid\)|Eq\(tid, self\.config\.trace_identifier\)'
-    Z = r'Eq\(tid, 0\)|Eq\(0, tid\)'
-    _pred_table(chk, 'R5', 'check_trace_id', fct, outs,
-                [Atom('mine', A), Atom('zero', Z)], lambda a: bool(a['mine'] or a['zero']))
-    fir = prog.find(r'TracerState::in_round$')
-    chk.fn_seen(fir['path'])
-    bs = prog.const_val('trippy_core::strategy::state::BUFFER_SIZE')
-    st = St()
-    outs = eng2.run(fir, [eng2.sym_ref(st, 'self'), ('sym', 'seq')], st)
-    GE = r'Ge\(seq, self\.round_sequence\)|Le\(self\.round_sequence, seq\)|Ge\(seq\.0, self\.round_sequence\.0\)'
-    LT = r'Lt\(Sub\(seq\.0, self\.round_sequence\.0\), %d\)|Lt\(Sub\(seq, self\.round_sequence\), %d\)' % (bs, bs)
-    _pred_table(chk, 'R5', 'in_round', fir, outs, [Atom('ge', GE, r'Lt\(seq, self\.round_sequence\)'), Atom('window', LT)],
-                lambda a: bool(a['ge'] and a['window']))
+
+
+def _subterms(v, depth=0):
+    if depth > 20 or not isinstance(v, tuple):
+        return
+    yield v
+    kids = v[4] if v[0] == 'adt' else v[1] if v[0] in ('tuple', 'arr') else v[2] if v[0] in ('term', 'closure') else ()
+    if isinstance(kids, (list, tuple)):
+        for x in kids:
+            yield from _subterms(x, depth + 1)
 
 
 def _atys(prog, c):
